@@ -24,6 +24,7 @@ RULE = (
     "helpers; plus, for every constructor that takes a coordinate array, two entities built from ONE float64 array (or a view "
     "of it) with every transformation and ordered pair applied to one of them: the array and the other entity stay put. "
     "non-trivial = every (entity, sequence) pair"
+    " Disk-like sketches and shapes extruded from them; both forms for a default-origin second step."
 )
 ASSUMPTIONS = [
     "default origins as documented: rotate/scale about entity.center, mirror about [0,0,0]",
